@@ -87,12 +87,18 @@ Definition option_eqb {A} (eqb : A -> A -> bool) (a b : option A) : bool :=
    next model state and a kind (0 = agrees, 1 = model differs from the implementation but the observation
    satisfies the property, 2 = the observation violates the property). The case code is
    step_index * 4 + kind of the first non-zero step (0 = whole case fine). *)
-Fixpoint scan {St X} (f : St -> X -> St * nat) (s : St) (xs : list X) (i : nat) : nat :=
+(* A kind-1 step (model differs, property holds) does not end the scan: the property judgement (kind >= 2) does not
+   depend on the model, so later steps are still judged; the case code is the first step of kind >= 2 if there is
+   one, else the first kind-1 step. *)
+Fixpoint scan_from {St X} (f : St -> X -> St * nat) (s : St) (xs : list X) (i : nat) (first1 : nat) : nat :=
   match xs with
-  | [] => 0
+  | [] => first1
   | x :: t => let '(s', k) := f s x in
-              if Nat.eqb k 0 then scan f s' t (S i) else i * 4 + k
+              if Nat.eqb k 0 then scan_from f s' t (S i) first1
+              else if Nat.leb 2 k then i * 4 + k
+              else scan_from f s' t (S i) (if Nat.eqb first1 0 then i * 4 + k else first1)
   end.
+Definition scan {St X} (f : St -> X -> St * nat) (s : St) (xs : list X) (i : nat) : nat := scan_from f s xs i 0.
 
 Definition kind_of (model_agrees property_holds : bool) : nat :=
   if negb property_holds then 2 else if negb model_agrees then 1 else 0.
